@@ -45,6 +45,12 @@ pub fn load_incircuit(
             .map_err(|e| e.into())
             .map(|xs| xs.into_iter().map(CircuitValue::Bool).collect()),
 
+        // `chunks` below does not accept a chunk size of 0.
+        IrType::Bytes(0) => {
+            convert_values::<Vec<u8>>(values)?;
+            Ok(values.iter().map(|_| CircuitValue::Bytes(vec![])).collect())
+        }
+
         IrType::Bytes(n) => {
             let concatenated: Vec<Value<u8>> = convert_values::<Vec<u8>>(values)?
                 .into_iter()
